@@ -248,4 +248,90 @@ def parseCompress (a : CompressArgs) : Parsed CompressParsed :=
         stdin := a.input.isNone
         buffers := buffers }
 
+/-- `--metadata-value KEY VALUE` (any number of times): clap's default `String` value parser refuses
+an argument that is not UTF-8; accepted pairs are handed on as given, in order. -/
+def parseMetadataValues (pairs : List (Bytes × Bytes)) : Parsed (List (Bytes × Bytes)) :=
+  if pairs.all (fun e => Proto.utf8Valid e.1 && Proto.utf8Valid e.2) then .ok pairs else .refused
+
+/-! ### `bita clone` -/
+
+/-- What the environment answers about the ARCHIVE text (`parse_input_archive_config`): the path
+exists; it does not exist but is an absolute path (`Url::from_file_path` succeeds); it parses as a
+URL; none of these.  External calls (`Path::exists`, the url crate) are parameters of the model. -/
+inductive ArchiveKind where
+  | existingPath
+  | missingAbsolutePath
+  | url
+  | neither
+  deriving Repr, DecidableEq
+
+/-- The options of `bita clone`, as texts, in the order the harness passes them. -/
+structure CloneArgs where
+  verifyHeader : Option Bytes := none      -- UTF-8 bytes of the text
+  seeds : List String := []                -- every `--seed` value, in order; `-` is stdin
+  retryCount : Option Txt := none
+  retryDelay : Option Txt := none
+  timeout : Option Txt := none
+  buffered : Option Txt := none
+  seedOutput : Bool := false
+  force : Bool := false
+  verifyOutput : Bool := false
+  archive : String
+  archiveKind : ArchiveKind
+  output : String
+  deriving Repr
+
+/-- What `parse_opts` hands to `clone_cmd`. -/
+structure CloneParsed where
+  cmd : CloneCmd
+  remote : Bool
+  seedStdin : Bool
+  retries : Nat
+  retryDelay : Nat
+  timeout : Option Nat
+  buffers : Option Nat
+  deriving Repr
+
+def optUnsigned (bits : Nat) : Option Txt → Parsed (Option Nat)
+  | none => .ok none
+  | some t => if clapTakesAsValue t then
+      (match parseUnsigned bits t with
+        | some v => .ok (some v)
+        | none => .refused) else .refused
+
+/-- A text given to `--verify-header`, as clap hands it to `parse_hash_sum`. -/
+def pinValue (s : Bytes) : Parsed Bytes :=
+  match s with
+  | 45 :: _ :: _ => .refused              -- starts with `-`: not taken as a value
+  | _ => parseHashSum s
+
+/-- `parse_opts` for `bita clone`: values are parsed as they are met, then the Options are built:
+a `--seed` value `-` means stdin and is not a seed file, every other one is a seed file, in the
+order given; the three flags are taken as given; the archive is local iff the path exists. -/
+def parseClone (a : CloneArgs) : Parsed CloneParsed :=
+  (match a.verifyHeader with
+    | none => Parsed.ok none
+    | some t => (pinValue t).bind fun v => .ok (some v)).bind fun pin =>
+  (if a.seeds.all (fun s => clapTakesAsValue s.toList) then Parsed.ok () else .refused).bind fun _ =>
+  (match a.retryCount with
+    | none => Parsed.ok 0
+    | some t => rangedU32 0 (2 ^ 32 - 1) t).bind fun retries =>
+  (optUnsigned 64 a.retryDelay).bind fun delay =>
+  (optUnsigned 64 a.timeout).bind fun timeout =>
+  (optUnsigned 64 a.buffered).bind fun buffers =>
+  match a.archiveKind with
+  | .missingAbsolutePath | .neither => .refused
+  | kind =>
+    .ok { cmd := { flags := ⟨a.force, a.seedOutput, a.verifyOutput⟩
+                   pin := pin
+                   output := a.output
+                   archivePath := a.archive
+                   seedPaths := a.seeds.filter (· ≠ "-") }
+          remote := decide (kind = ArchiveKind.url)
+          seedStdin := a.seeds.contains "-"
+          retries := retries
+          retryDelay := delay.getD 0
+          timeout := timeout
+          buffers := buffers }
+
 end Bita.Options
